@@ -83,6 +83,8 @@ where
     Wait {
         tx: oneshot::Sender<()>,
     },
+    /// Forget the open blob: the blocks are about to be cleaned (see `BlockEngine::destroy`).
+    Reset,
 }
 
 impl<K, V, P> Debug for Submission<K, V, P>
@@ -112,6 +114,7 @@ where
                 f.debug_struct("Reinsertion").field("reinsertion", reinsertion).finish()
             }
             Self::Wait { .. } => f.debug_struct("Wait").finish(),
+            Self::Reset => f.debug_struct("Reset").finish(),
         }
     }
 }
@@ -245,6 +248,11 @@ where
                 "[block engine flusher]: error raised when submitting task, error: {e}"
             );
         }
+    }
+
+    /// Make the flusher start a new blob at the beginning of its current block.
+    pub fn reset(&self) {
+        self.submit(Submission::Reset);
     }
 
     pub fn wait(&self) -> impl Future<Output = ()> + Send + 'static {
@@ -463,6 +471,7 @@ where
                 }
             }
             Submission::Wait { tx } => self.waiters.push(tx),
+            Submission::Reset => self.ctx.reset(),
         }
     }
 
